@@ -29,7 +29,7 @@ Observe at: {json.dumps(p['anchors'].get('observe_at', []))}
 Deliver in /tmp/mut/out/{tag}/ :
   patch.diff  - `git -C {wt} diff -- . ':!tests' ':!examples'` of your library change only (must apply with `git apply` on a clean checkout of the same commit)
   demo.rs     - a small Rust program or #[test] (you may put it temporarily under {wt}/tests/ or {wt}/examples/; it is not part of patch.diff) that you have ACTUALLY RUN in the worktree,
-                showing the property violated with your change and satisfied without it (use `git stash` to compare), plus
+                showing the property violated with your change and satisfied without it (NEVER use `git stash` - it is shared with other worktrees; to compare use `git diff > /tmp/mut/out/{tag}/my.diff; git checkout -- .; <run>; git apply /tmp/mut/out/{tag}/my.diff`), plus
   demo.txt    - the command line and the two outputs (with / without the change)
   meta.json   - {{"property": "{p['id']}", "summary": "...", "files": [...], "what_triggers_it": "...", "why_tests_still_pass": "...", "tests_run": "<the test result lines you observed>"}}
 The crate `feos` needs features for most models, e.g. `cargo test --offline --features all_models --test <name>` or `cargo run --offline --features all_models --example <name>`.
